@@ -1,4 +1,5 @@
 import D2P.Proofs.Shape
+import D2P.Proofs.Hyperlink
 /-!
 # Every step of the walk preserves the collector invariant
 -/
@@ -156,9 +157,8 @@ theorem openStep_inv (cfg : PartCfg) (s s' : DC) (x : Xml) (c : Bool) (roots : L
       · have := pure_ok ht; subst this; exact hs) h
   · exact withTrue_inv _ s' r (fun t ht => noteLabel_inv s t x _ hs ht) h
   · exact withTrue_inv _ s' r (fun t ht => noteLabel_inv s t x _ hs ht) h
-  · exact withFalse_inv _ s' r (fun t ht => by
-      obtain ⟨tx, _, ht⟩ := bind_ok ht; obtain ⟨rn, _, ht⟩ := bind_ok ht
-      exact insertNewRun_inv cfg.html s t _ hs ht) h
+  · exact withFalse_inv _ s' r (fun t ht => openHyperlink_preserves cfg (fun a id b ha hb => startRange_inv a b id ha hb)
+      (fun a tx b ha hb => insertNewRun_inv cfg.html a b tx ha hb) (fun a id b ha hb => endRange_inv a b id ha hb) s t x roots hs ht) h
   · exact withTrue_inv _ s' r (fun t ht => by
       obtain ⟨tx, _, ht⟩ := bind_ok ht; exact insertNewRun_inv cfg.html s t _ hs ht) h
   · exact withTrue_inv _ s' r (fun t ht => by
